@@ -78,6 +78,27 @@ def main():
         return r
     xcore.analyze_calltree = calltree
 
+    # Engine-level stub: formatting a symbolic number inside an f-string yields an opaque placeholder instead of
+    # realising the number (CrossHair would fork on every concrete value; error messages are not the subject of any
+    # property).  Only f-strings of the code under test are affected.
+    import crosshair.opcode_intercept as xop
+    from crosshair.util import CrossHairValue
+    from crosshair.libimpl.builtinslib import AnySymbolicStr
+    from crosshair.tracers import NoTracing
+
+    def _opaque(orig):
+        def fmt(self, *a):
+            with NoTracing():
+                v = self.value
+                sym = isinstance(v, CrossHairValue) and not isinstance(v, AnySymbolicStr)
+            if sym:
+                self.formatted = "<symbolic>"
+                return ""
+            return orig(self, *a)
+        return fmt
+    for _n in ("__str__", "__format__", "__repr__"):
+        setattr(xop.FormatStashingValue, _n, _opaque(getattr(xop.FormatStashingValue, _n)))
+
     import vf.hx as hx
     mod = importlib.import_module(spec["module"])
     fn = getattr(mod, spec["fn"])
